@@ -5,7 +5,7 @@
 (* that "own name equals an inherited name" is "redeclares an ancestor's operation"; every hierarchy   *)
 (* is printed with the expected verdict, ancestor sets and inherited operations, rendered in three     *)
 (* layouts (declaration order, reverse order, split over two files) and compiled.                      *)
-EXTENDS Inheritance, TLC, Json
+EXTENDS Inheritance, TLC, Json, SequencesExt
 CONSTANTS N, OpNames, Layouts
 VARIABLES h, lay
 BaseSeqs(k) == {<<>>} \cup {<<a>> : a \in 1..(k - 1)} \cup {s \in (1..(k - 1)) \X (1..(k - 1)) : s[1] # s[2]}
@@ -14,7 +14,7 @@ Next == /\ Len(h) < N
         /\ \E bs \in BaseSeqs(Len(h) + 1), ops \in SUBSET OpNames : h' = Append(h, [bases |-> bs, ops |-> ops])
         /\ UNCHANGED lay
 Spec == Init /\ [][Next]_<<h, lay>>
-SetToSeq(S) == CHOOSE s \in [1..Cardinality(S) -> S] : \A i, j \in 1..Cardinality(S) : i < j => s[i] # s[j]
+\* (SetToSeq: SequencesExt - some enumeration of the set; the harness compares as sets)
 Emit == h # <<>> =>
         PrintT(<<"CASE", ToJson([fam |-> "inherit",
                                  item |-> [ifs |-> [k \in 1..Len(h) |-> [bases |-> h[k].bases, ops |-> SetToSeq(h[k].ops)]], lay |-> lay],
